@@ -53,11 +53,12 @@ OptOK(op, o) ==
       [] o = "rmax64" -> op \in {"dmrg_hadamard", "amen_mv", "amen_mm", "amen_solve"}
       [] o \in {"band1", "band2"} -> op \in SolveOps
       [] OTHER -> FALSE
+FlatShape == <<400, 400>>
 MinSeed == CHOOSE m \in SEEDS : \A n \in SEEDS : m <= n
 
 Init == /\ expect = [t |-> "none"]
         /\ \E op \in OPS, N \in SHAPES, r \in RANKS, e \in EPSEXP, g \in GUESS, s \in SEEDS, cx \in BOOLEAN, be \in BACKENDS,
-              data \in {"rand", "decay", "zero", "col1"}, sq \in BOOLEAN,
+              data \in {"rand", "decay", "zero", "col1", "flat"}, sq \in BOOLEAN,
               prec \in PREC \cup {"none"}, mf \in MAXFULL \cup {500}, ls \in SOLVER \cup {1}, sys \in SYSCLS \cup {"na"},
               sc \in SCALES \cup {"unit"}, opt \in OPTS \cup {"default"} :
              /\ Len(N) >= MinOrder(op)
@@ -73,6 +74,14 @@ Init == /\ expect = [t |-> "none"]
              \* data = "zero": the second operand (products), the right-hand side (solve) or the numerator (divide) is exactly zero;
              \* the exact result is the zero tensor and the routine has to return it (to roundoff), not to fail
              /\ (data = "zero" => op \in ProductOps \cup SolveOps \cup DivideOps /\ g = "none" /\ sc = "unit" /\ r = 1)
+             \* data = "flat": the exact result is a FlatShape matrix with one dominant singular value and a flat tail of several hundred
+             \* equal ones, each just below the per-bond allowance of the final sweep (x = eye @ x resp. ones * y).  A truncation that
+             \* looks at the singular values one by one instead of at the norm of the discarded tail loses sqrt(#tail) times the
+             \* allowance - beyond every "small constant" once the tail is long enough; the two-site sweeps reach any rank in one step
+             \* (order 2), the one-site AMEn routines would need rank / kick sweeps and are not asked
+             /\ (data = "flat" <=> N = FlatShape)
+             /\ (data = "flat" => /\ g = "none" /\ sc = "unit" /\ r = 1 /\ ~cx /\ opt = "default" /\ s = MinSeed
+                                  /\ ((op = "fast_matvec" /\ sq) \/ (op = "dmrg_hadamard" /\ ~sq)))
              /\ (sq => op \in {"fast_matvec", "amen_mv", "amen_mm", "amen_solve"})      \* square operator
              /\ (g = "alias" => (sq \/ op \notin {"fast_matvec", "amen_mv", "amen_mm"}))
              /\ (op \notin SolveOps => prec = "none" /\ mf = 500 /\ ls = 1 /\ sys = "na")
@@ -88,7 +97,8 @@ Init == /\ expect = [t |-> "none"]
              /\ (op \in SolveOps /\ Len(N) >= 3 /\ N[1] >= 12 => sys = "laplace" /\ g \in {"none", "fresh"} /\ ls = 1)
              /\ (op \in DivideOps \cup CrossOps \cup ManifoldOps => data \in {"rand", "zero"} /\ ~sq)
              \* large order-4 grids (interior local systems solved iteratively, interior bonds converging last): plain calls only
-             /\ (op \in DivideOps /\ Len(N) >= 4 /\ N[2] >= 8 => g = "none" /\ sc = "unit" /\ r >= 3 /\ data = "rand")
+             \* (default options: with kick = 1 the rank grows by one per sweep and a quotient of rank 56 is out of reach of nswp = 50)
+             /\ (op \in DivideOps /\ Len(N) >= 4 /\ N[2] >= 8 => g = "none" /\ sc = "unit" /\ r >= 3 /\ data = "rand" /\ opt = "default")
              /\ (op = "elementwise_divide_c" \/ op \in {"div", "rdiv"} => g \in {"none"} \/ op = "elementwise_divide_c")
              \* optional arguments: one at a time, on plain calls (no guess, unit scale, generic data, one seed)
              /\ OptOK(op, opt)
